@@ -306,7 +306,7 @@ theorem c_theta_one {u v : ℝ} (hu : 0 < u) (_hu1 : u < 1) (hv : 0 < v) (_hv1 :
   norm_num
   field_simp
 
-/-! ### … but the `θ == 1` shortcuts of `partial_derivative` / `probability_density` are not -/
+/-! ### row-wise theorems for the generated `partial_derivative` / `probability_density` -/
 
 /-- Row independence of the generated `partial_derivative`, as found: general formula for
 `θ > 1`. -/
@@ -325,18 +325,40 @@ theorem pdf_rowwise {θ : ℝ} (hθ : 1 < θ) (xs : List (ℝ × ℝ)) :
   have hne : θ ≠ 1 := hθ.ne'
   simp [hne, bridge_pdfRow hne]
 
-/-- What the generated methods return at `θ = 1` (as found): the second coordinate, resp. the
-product — for every batch. -/
+/-- What the generated methods return at `θ = 1` (after the repair `fix: Gumbel theta == 1
+shortcuts …`): the first coordinate, resp. the constant `1` — for every batch. -/
 theorem h_theta_one_rowwise (xs : List (ℝ × ℝ)) :
-    Gen.Gumbel.h (1 : ℝ) xs = .ok (xs.map fun p => p.2) := by
+    Gen.Gumbel.h (1 : ℝ) xs = .ok (xs.map fun p => p.1) := by
   unfold Gen.Gumbel.h
   rw [checkFit_ok le_rfl]
   simp [Gen.Gumbel.h_leaf0]
 
 theorem pdf_theta_one_rowwise (xs : List (ℝ × ℝ)) :
-    Gen.Gumbel.pdf (1 : ℝ) xs = .ok (xs.map fun p => p.1 * p.2) := by
+    Gen.Gumbel.pdf (1 : ℝ) xs = .ok (xs.map fun _ => (1 : ℝ)) := by
   unfold Gen.Gumbel.pdf
   rw [checkFit_ok le_rfl]
   simp [Gen.Gumbel.pdf_leaf0]
+
+/-- Row independence for every `θ ≥ 1` on the open unit square: at `θ = 1` the shortcut agrees with
+the general formula (`h_theta_one`, `c_theta_one`). -/
+theorem h_rowwise_ge_one {θ : ℝ} (hθ : 1 ≤ θ) (xs : List (ℝ × ℝ))
+    (hdom : ∀ p ∈ xs, 0 < p.1 ∧ p.1 < 1 ∧ 0 < p.2 ∧ p.2 < 1) :
+    Gen.Gumbel.h θ xs = .ok (xs.map fun p => h θ p.1 p.2) := by
+  rcases hθ.eq_or_lt with rfl | hlt
+  · rw [h_theta_one_rowwise]; congr 1
+    apply List.map_congr_left; intro p hp
+    obtain ⟨a, b, c', d⟩ := hdom p hp
+    exact (h_theta_one a b c' d).symm
+  · exact h_rowwise hlt xs
+
+theorem pdf_rowwise_ge_one {θ : ℝ} (hθ : 1 ≤ θ) (xs : List (ℝ × ℝ))
+    (hdom : ∀ p ∈ xs, 0 < p.1 ∧ p.1 < 1 ∧ 0 < p.2 ∧ p.2 < 1) :
+    Gen.Gumbel.pdf θ xs = .ok (xs.map fun p => c θ p.1 p.2) := by
+  rcases hθ.eq_or_lt with rfl | hlt
+  · rw [pdf_theta_one_rowwise]; congr 1
+    apply List.map_congr_left; intro p hp
+    obtain ⟨a, b, c', d⟩ := hdom p hp
+    exact (c_theta_one a b c' d).symm
+  · exact pdf_rowwise hlt xs
 
 end CopVerif.Gumbel
